@@ -532,8 +532,9 @@ def clause_shape(ctx, crate, crs, tag):
 
 
 def _requires_conflict_flag(b, crs):
-    """In Clause::requires: tuples built with const true as 3rd element only on the None edge of `find(..)`;
-    const false elsewhere."""
+    """In Clause::requires the conflict flag is the constant `true` only on the None edge of `find(..)` (no candidate that is
+    not false) and the constant `false` elsewhere.  The flag is looked for as a bool constant operand of any aggregate the
+    function builds - the (kind, watches, conflict) triple, an intermediate pair, or a struct with the same role."""
     cs = q.conds(b, crs)
     find_none = []
     for c in cs:
@@ -542,31 +543,24 @@ def _requires_conflict_flag(b, crs):
     if not find_none:
         return False
     ok = True
-    n_true = 0
+    n_true = n_false = 0
     for i, j, s in b.assigns():
         r = s["r"]
-        if r["k"] == "agg" and r.get("ak") == "tuple" and len(r["ops"]) in (2, 3) and not s.get("exp"):
-            # (kind, watches, conflict) or an intermediate (watched candidate, conflict) pair
-            flag = r["ops"][-1]
-            if len(r["ops"]) == 2 and flag.get("k") != "const":
+        if r["k"] != "agg" or s.get("exp") or r.get("ak") not in ("tuple", "adt"):
+            continue
+        if r.get("ak") == "adt" and str(r.get("adt", "")).startswith(("std::", "core::", "alloc::")):
+            continue
+        for flag in r["ops"]:
+            if flag.get("k") != "const" or flag.get("ty") != "bool":
                 continue
-            if flag.get("k") == "const" and flag.get("ty") != "bool":
-                continue
-            if flag.get("k") != "const" and len(r["ops"]) == 3:
-                # the returned flag is a copy of an intermediate pair's flag
-                d = b.origin(flag)
-                if d.get("k") in ("multi", "rvalue") or any(isinstance(e, dict) and "f" in e for e in d.get("proj", [])):
-                    continue
-            if flag.get("k") == "const" and flag.get("v") is True:
+            on_none = any(q.edge_dominates(b, sb, nt, i) for sb, nt, st in find_none)
+            if flag.get("v") is True:
                 n_true += 1
-                if not any(q.edge_dominates(b, sb, nt, i) for sb, nt, st in find_none):
-                    ok = False
-            elif flag.get("k") == "const" and flag.get("v") is False:
-                if any(q.edge_dominates(b, sb, nt, i) for sb, nt, st in find_none):
-                    ok = False
-            else:
-                ok = False
-    return ok and n_true == 1
+                ok = ok and on_none
+            elif flag.get("v") is False:
+                n_false += 1
+                ok = ok and not on_none
+    return ok and n_true == 1 and n_false >= 1
 
 
 # ------------------------------------------------------------------------------------------------
